@@ -1223,6 +1223,9 @@ func main() {
 	run.Set("worker_retirements", retired)
 	run.Set("rounds", rounds)
 	run.Set("signatures", len(sigs)-len(unconfirmed))
+	if unconfirmed == nil {
+		unconfirmed = []string{}
+	}
 	run.Set("failures_not_reproduced_in_isolation", unconfirmed)
 	run.Set("in_memory_twin_confirmations", twin)
 	sp.info["io_explicit_inputs"] = sp.explicitN["io"]
@@ -1234,6 +1237,8 @@ func main() {
 	run.Assumption("a reader-fed decode that asks for more data more than 100000 + 256 x len times after io.EOF is convicted as an unbounded loop; the in-memory variants of that (input, destination, mode) are then not run (they run the same loop, differ only in loadMore and would each burn the CPU budget; whatever they did would carry the same signature); per signature the in-memory twin of the spinning evaluation with the largest count is run under the CPU budget and its verdict is recorded")
 	run.Assumption("workers run under ulimit -v 3 GiB (about 1.6 GiB of it is reserved by the Go runtime at start) and are replaced once they hold more than 128 MiB, so every evaluation has about 1.3 GiB of address space to itself: an allocation that does not fit kills the worker and convicts the one evaluation named by its journal; smaller over-allocations are measured (TotalAlloc delta against 1 MiB + 256 x len)")
 	run.Assumption("time oracle: 3 s of process CPU time per evaluation (plus 10 us per input byte) and a 120 s wall-clock watchdog per job; nothing below that is judged by the clock")
+	run.Assumption("every signature's shortest failing evaluation is run once more alone in a fresh worker; a failure that does not show there (it depended on what the worker had done before, or on machine load for the wall-clock watchdog) is listed under failures_not_reproduced_in_isolation and not reported")
+	run.Assumption("client entry: the response bytes are handed to core.Client by an IO plugin and decoded by Client.InvokeContext; service entry: Service.Handle with a fresh ServiceContext per request")
 	run.Assumption("the at= label of a signature (panic site, allocation site, loop) is derived from stacks and the allocation profile; it names the verdict, it does not decide it")
 	run.Finish()
 }
